@@ -445,12 +445,14 @@ class AsyncFIFO(Elaboratable, FIFOInterface):
 
         w_full  = Signal()
         r_empty = Signal()
-        m.d.comb += [
-            w_full.eq((produce_w_gry[-1]  != consume_w_gry[-1]) &
-                      (produce_w_gry[-2]  != consume_w_gry[-2]) &
-                      (produce_w_gry[:-2] == consume_w_gry[:-2])),
-            r_empty.eq(consume_r_gry == produce_r_gry),
-        ]
+        if self._ctr_bits == 1:
+            # A queue of depth 1 has single-bit counters: it is full whenever they differ.
+            m.d.comb += w_full.eq(produce_w_gry != consume_w_gry)
+        else:
+            m.d.comb += w_full.eq((produce_w_gry[-1]  != consume_w_gry[-1]) &
+                                  (produce_w_gry[-2]  != consume_w_gry[-2]) &
+                                  (produce_w_gry[:-2] == consume_w_gry[:-2]))
+        m.d.comb += r_empty.eq(consume_r_gry == produce_r_gry)
 
         m.d[self._w_domain] += self.w_level.eq(produce_w_bin - consume_w_bin)
         m.d.comb += self.r_level.eq(produce_r_bin - consume_r_bin)
